@@ -1,5 +1,5 @@
 use crate::{
-    geometry::{angle_consts::*, Angle, Point},
+    geometry::{angle_consts::*, Angle, Point, PointExt},
     primitives::common::{LineSide, OriginLinearEquation, PointType},
 };
 
@@ -79,7 +79,27 @@ impl PlaneSector {
         let correct_side_1 = self.half_plane_left.check_side(point, LineSide::Left);
         let correct_side_2 = self.half_plane_right.check_side(point, LineSide::Right);
 
-        self.operation.execute(correct_side_1, correct_side_2)
+        self.operation.execute(correct_side_1, correct_side_2) && !self.is_behind_ray(point)
+    }
+
+    /// Checks if the point lies on the wrong side of the center point of a degenerate sector.
+    ///
+    /// If the sweep angle is zero (or too small to be resolved) both half planes share the same
+    /// border and their intersection is the complete line through the center point. Only the
+    /// half of this line which starts at the center point and points in the direction of the
+    /// start angle is part of the sector.
+    fn is_behind_ray(&self, point: Point) -> bool {
+        if self.operation != Operation::Intersection
+            || self.half_plane_left.normal_vector != self.half_plane_right.normal_vector
+        {
+            return false;
+        }
+
+        // The normal vector is the direction vector rotated by 90°.
+        let normal_vector = self.half_plane_right.normal_vector;
+        let direction = Point::new(normal_vector.y, -normal_vector.x);
+
+        point.dot_product(direction) < 0
     }
 
     /// Checks if a point is inside the stroke or fill area.
@@ -89,6 +109,10 @@ impl PlaneSector {
         inside_threshold: i32,
         outside_threshold: i32,
     ) -> Option<PointType> {
+        if self.is_behind_ray(point) {
+            return None;
+        }
+
         let distance_right = self.half_plane_right.distance(point);
         let distance_left = self.half_plane_left.distance(point);
 
